@@ -61,10 +61,11 @@ const (
 	kAgent            // agent lost: FAILURE(agent)
 	kAgentLost        // agent lost as Mesos reports it: TASK_LOST per task, then FAILURE(agent)
 	kInternal         // device announces TASK_INTERNAL_ERROR (controllable tasks)
+	kReconLost        // lost with its agent while the core was disconnected: TASK_LOST learnt from the reconciliation after the resubscription
 	nKinds
 )
 
-var kindName = [...]string{"none", "TASK_FAILED", "TASK_LOST", "TASK_KILLED", "executor-lost", "agent-lost", "agent-lost+TASK_LOST", "TASK_INTERNAL_ERROR"}
+var kindName = [...]string{"none", "TASK_FAILED", "TASK_LOST", "TASK_KILLED", "executor-lost", "agent-lost", "agent-lost+TASK_LOST", "TASK_INTERNAL_ERROR", "TASK_LOST-by-reconciliation"}
 
 type phase struct {
 	name  string
@@ -160,15 +161,27 @@ type result struct {
 // kind groups: the Mesos-level failures and the device-level announcement are
 // explored as separate scenarios (a finding in one does not stop the other at a lower bound).
 var groups = map[string][]int{
-	"mesos":  {kNone, kFailed, kLost, kKilled, kExec, kAgent, kAgentLost},
+	"mesos":  {kNone, kFailed, kLost, kKilled, kExec, kAgent, kAgentLost, kReconLost},
 	"device": {kNone, kInternal},
 	"failed": {kFailed},
 	// one representative per handling path (status update / executor FAILURE / agent FAILURE preceded by status updates)
-	"mesos-core": {kFailed, kExec, kAgentLost},
+	"mesos-core": {kFailed, kExec, kAgentLost, kReconLost},
 }
 
 func scenario(s shape, ph phase, group string, q, t vrt.Bounds) *vrt.Scenario {
 	kinds := groups[group]
+	if ph.op != "" {
+		// a dropped connection also loses the replies of the request in flight: the statement does not
+		// say what becomes of that request (C18 covers reconnection), so the reconciliation-learnt loss
+		// is injected while no request is in flight only
+		var ks []int
+		for _, k := range kinds {
+			if k != kReconLost {
+				ks = append(ks, k)
+			}
+		}
+		kinds = ks
+	}
 	var (
 		r result
 		w *coresim.World
@@ -235,6 +248,9 @@ func scenario(s shape, ph phase, group string, q, t vrt.Bounds) *vrt.Scenario {
 			case kFailed, kLost, kKilled:
 				dead = []*coresim.SimTask{victim}
 				m.FailTask(victim, map[int]mesos.TaskState{kFailed: mesos.TASK_FAILED, kLost: mesos.TASK_LOST, kKilled: mesos.TASK_KILLED}[r.kind])
+			case kReconLost:
+				dead = []*coresim.SimTask{victim}
+				m.LoseWhileDisconnected(victim)
 			case kExec, kAgent, kAgentLost:
 				for _, tid := range m.TaskOrder {
 					if t := m.Tasks[tid]; t.Alive && t.AgentID == victim.AgentID && (r.kind != kExec || t.ExecutorID == victim.ExecutorID) {
